@@ -33,6 +33,7 @@ class Check:
     excluded_configs = []
     ops_key = "ops"
     min_runs = 20
+    library_exceptions_are_violations = True
 
     def setup(self):
         pass
@@ -57,6 +58,19 @@ def _alarm(signum, frame):
     raise RunTimeout()
 
 
+def _library_frame(e):
+    """innermost traceback frame that lies in the repository under test, or None"""
+    root = os.path.join(os.path.abspath(boot.REPO), "sparseSpACE") + os.sep
+    tb = e.__traceback__
+    found = None
+    while tb is not None:
+        fn = tb.tb_frame.f_code.co_filename
+        if os.path.abspath(fn).startswith(root):
+            found = (os.path.basename(fn), tb.tb_frame.f_code.co_name, tb.tb_lineno)
+        tb = tb.tb_next
+    return found
+
+
 def run_one(check, sched, known, keep_log=False, timeout=None):
     """Execute one schedule. Returns a JSON-able result dict."""
     ctx = Ctx(check.pid, known, keep_log=keep_log)
@@ -78,8 +92,20 @@ def run_one(check, sched, known, keep_log=False, timeout=None):
         res["excluded"] = str(e)[:200]
     except RunTimeout:
         res["timeout"] = True
-    except Exception as e:  # harness or unclassified library exception: never a pass, never a VIOLATION
-        res["error"] = "%s: %s\n%s" % (type(e).__name__, str(e)[:500], traceback.format_exc()[-3000:])
+    except Exception as e:
+        lib = _library_frame(e) if check.library_exceptions_are_violations else None
+        if lib is not None and not isinstance(e, MemoryError):
+            # the operation was one the property requires to succeed (the engine only issues such operations
+            # outside its explicit invalid_request handling): an exception raised inside the library is a violation
+            sig = {"exception": type(e).__name__, "function": lib[1], "file": lib[0]}
+            sig.update(getattr(ctx, "exc_sig", {}) or {})
+            try:
+                ctx.violate("operation_raises", sig, "%s: %s (in %s:%s %s)\n%s" % (
+                    type(e).__name__, str(e)[:300], lib[0], lib[2], lib[1], traceback.format_exc()[-1500:]))
+            except Violation as v:
+                res["viol"] = {"oracle": v.oracle, "signature": v.signature, "msg": v.msg[:2500]}
+        else:  # harness exception: never a pass, never a VIOLATION
+            res["error"] = "%s: %s\n%s" % (type(e).__name__, str(e)[:500], traceback.format_exc()[-3000:])
     finally:
         signal.setitimer(signal.ITIMER_REAL, 0)
         signal.signal(signal.SIGALRM, old)
@@ -287,7 +313,7 @@ def run_check(check, tier, seed=None, nruns=None, workers=None, budget=None, wri
 
     wall = _time.time() - t0
     zero = [p for p in getattr(check, "expected_probes", []) if not agg["probes"].get(p)]
-    if write_evidence:
+    if write_evidence and not os.environ.get("VERIF_NO_EVIDENCE"):
         ev = {
             "property_id": check.pid, "tier": tier, "seed": seed, "level": check.level,
             "coverage": {
